@@ -260,6 +260,18 @@ var c15Rings = []c15Ring{
 	{"custom(100)", 100, func() *hash.ConsistentHash { return hash.NewCustomConsistentHash(100, hash.Hash) }},
 	{"custom(150)", 150, func() *hash.ConsistentHash { return hash.NewCustomConsistentHash(150, nil) }},
 	{"custom(400)", 400, func() *hash.ConsistentHash { return hash.NewCustomConsistentHash(400, hash.Hash) }},
+	// a caller's hash function may do what it likes with the bytes it is handed (hash.Func documents
+	// no restriction): this one wipes its input after hashing it, so a ring that lends the same buffer
+	// to several calls, or goes on using it, reads zeroes
+	{"custom(100,wiping)", 100, func() *hash.ConsistentHash { return hash.NewCustomConsistentHash(100, c15WipingHash) }},
+}
+
+func c15WipingHash(data []byte) uint64 {
+	h := hash.Hash(data)
+	for i := range data {
+		data[i] = 0
+	}
+	return h
 }
 
 func c15SortedReprs(m map[string]*c15Member) []string {
